@@ -47,7 +47,10 @@ example : pythonRelativeBase [['a'], ['b']] true 1 = some [['a'], ['b']] := by d
 /-- a one-component name expands to what `_localNameToFullName` says -/
 theorem expand_single_local (e : Env) (obj : Nat) (p : Name) :
     expandName e obj [p] = localName e (fuelOf e) obj p := by
+  have hc : componentName e obj true p = localName e (fuelOf e) obj p := by
+    unfold componentName; cases getObj e.st obj <;> simp
   unfold expandName expandLoop
+  rw [hc]
   cases h : localName e (fuelOf e) obj p with
   | none => simp
   | some fn =>
@@ -116,12 +119,25 @@ def afterStep (e : Env) (fn : Path) (nxt : Nat) (rest : List Name) : Option Path
 @[simp] theorem afterStep_cons (e : Env) (fn : Path) (nxt : Nat) (a : Name) (l : List Name) :
     afterStep e fn nxt (a :: l) = expandLoop e nxt false (a :: l) := rfl
 
+/-- a component that the object itself defines is looked up by `_localNameToFullName` -/
+theorem componentName_contents {e : Env} {y : Nat} {yo : Obj} {p : Name} {c : Nat} (first : Bool)
+    (hy : getObj e.st y = some yo) (hd : dget yo.contents p = some c) :
+    componentName e y first p = localName e (fuelOf e) y p := by
+  unfold componentName; simp [hy, hd]
+
+/-- … and so is one that it imports -/
+theorem componentName_alias {e : Env} {y : Nat} {yo : Obj} {p : Name} {t : Path} (first : Bool)
+    (hy : getObj e.st y = some yo) (ha : dget yo.aliases p = some t) :
+    componentName e y first p = localName e (fuelOf e) y p := by
+  unfold componentName; simp [hy, ha]
+
 /-- one round of the `expandName` loop when the component resolves to a registered object -/
 theorem expandLoop_step {e : Env} {y : Nat} {first : Bool} {p : Name} {rest : List Name} {fn : Path}
-    {nxt : Nat} (hl : localName e (fuelOf e) y p = some fn) (hne : fn ≠ [p])
+    {nxt : Nat} (hg : componentName e y first p = localName e (fuelOf e) y p)
+    (hl : localName e (fuelOf e) y p = some fn) (hne : fn ≠ [p])
     (ho : objFor e fn = some nxt) :
     expandLoop e y first (p :: rest) = afterStep e fn nxt rest := by
-  rw [expandLoop]
+  rw [expandLoop, hg]
   simp only [hl, hne, decide_false, Bool.false_and, Bool.false_eq_true, if_false, ho]
   cases rest <;> rfl
 
@@ -246,7 +262,7 @@ theorem expandLoop_descend (e : Env) (hI : Inv e.st) :
       have h2 := List.length_pos_iff.2 hpyne
       simp only [List.length_append, List.length_cons, List.length_nil] at h1; omega
     have ho : objFor e (py ++ [n1]) = some y1 := dget_of_mem hI.reg.uniq hy1
-    rw [List.cons_append, expandLoop_step hl hne ho]
+    rw [List.cons_append, expandLoop_step (componentName_contents first hyo hd) hl hne ho]
     cases rest' with
     | nil =>
       have hxy : x = y1 := uniq_val hI.reg.uniq (by simpa using hx) hy1
@@ -491,7 +507,7 @@ theorem old_member_name_finds_of_forall {s s' : State} {obj newParent : Nat} {ne
       have h1 := congrArg List.length e
       have h2 := (hI.reg.hasPath F.hpnp).length_pos
       simp only [List.length_append, List.length_cons, List.length_nil] at h1; omega
-    exact expandLoop_step hl hne (dget_of_mem hI'.reg.uniq hBobj)
+    exact expandLoop_step (componentName_alias fst hopo' halias) hl hne (dget_of_mem hI'.reg.uniq hBobj)
   -- from the root down to the old parent
   have hstage1 : ∃ fst, expandLoop ⟨s', m⟩ ro true (mid ++ (o.name :: rest)) =
       expandLoop ⟨s', m⟩ op fst (o.name :: rest) := by
